@@ -1,9 +1,10 @@
 //go:build verif
 
-package doapprove
+package main
 
 // Contracts for the deductive checker in /verif (comment-only file).
 
-//vc:func Main
+// Induction hypothesis of C13: the status directory satisfies the invariant
+// when a run starts (base case: lemma statusInitial in pkg/status).
+//vc:func main
 //vc:  requires[C13] InvAll(statusFile, hasOK, tOK, pOK, hasCmp, tCmp, pCmp, chg, now)
-//vc:  assert[C11] at "device.ApproveOrCompare(" @verbSelectsPath arg0 == (action == "compare") && (action == "compare" || action == "approve")
